@@ -159,6 +159,7 @@ def tickOf (v : Rat) : Nat := (pyRound (F64.mul (F64.div 1 v) 288)).toNat
 structure MEntry where
   value : Rat
   notes : List Note      -- `None` and the empty container are both rests: []
+  bpm : Option Int := none   -- a `bpm` attribute on the container: tempo change where the container starts
   deriving DecidableEq, Repr, Inhabited
 
 structure MBar where
@@ -183,6 +184,9 @@ def playEntry (t : MT) (e : MEntry) : Except Err MT :=
     if e.notes = [] then .ok { t with delay := t.delay + tick }
     else do
       let t := { t with pending := t.delay, delay := 0 }
+      let t ← (match e.bpm with
+        | some b => do let t ← t.setTempo b; pure (t.setDelta 0)     -- the tempo event takes the pending delta (the rest)
+        | none => pure t)
       let t ← t.playNC e.notes
       let t := t.setDelta tick
       t.stopNC e.notes
